@@ -137,7 +137,13 @@ impl<'a> SdesChunk<'a> {
 
     /// The length of this chunk
     pub fn length(&self) -> usize {
-        let len = Self::MIN_LEN + self.items.iter().fold(0, |acc, item| acc + item.length());
+        // each item has a 2 byte header and the list ends with a nul byte
+        let len = Self::MIN_LEN
+            + self
+                .items
+                .iter()
+                .fold(0, |acc, item| acc + SdesItem::MIN_LEN + item.length())
+            + 1;
         pad_to_4bytes(len)
     }
 
